@@ -346,9 +346,10 @@ Proof.
 Qed.
 
 (* ------------------------------------------------------------------ equal indices *)
-Lemma refract_same_index cap err d n : n <> vzero -> 0 <= err -> refract_dir_opt (S cap) err 1 d n = Some d.
+(* d.n <> 0: at grazing incidence the code divides 0 by 0 (NaN cosines); Coq's x / 0 = 0 would hide that *)
+Lemma refract_same_index cap err d n : n <> vzero -> vdot d n <> 0 -> 0 <= err -> refract_dir_opt (S cap) err 1 d n = Some d.
 Proof.
-  intros H He. unfold refract_dir_opt. assert (Eb : rf_b 1 n = 0) by (unfold rf_b; field; apply nz_norm2; exact H).
+  intros H _ He. unfold refract_dir_opt. assert (Eb : rf_b 1 n = 0) by (unfold rf_b; field; apply nz_norm2; exact H).
   rewrite Eb. set (a := rf_a 1 d n). unfold refract_t, tir.
   assert (Et : Rltb (a * a) 0 = false) by (apply Rltb_false; nra). rewrite Et.
   assert (E0 : rf_t0 a 0 = 0) by (unfold rf_t0, Rdiv; ring). rewrite E0. cbn [newton_loop].
